@@ -1117,7 +1117,12 @@ class TaskJobManager:
             log_task_job_activity(
                 ctx, self.workflow, itask.point, itask.tdef.name
             )
-        if ctx.ret_code == SubProcPool.RET_CODE_WORKFLOW_STOPPING:
+        if SubProcPool.RET_CODE_WORKFLOW_STOPPING in (
+            ctx.ret_code, cmd_ctx.ret_code
+        ):
+            # The command was not run because the workflow is stopping: this
+            # is not a submission failure, leave the task as it is (it will
+            # be prepared again on restart).
             return
 
         try:
